@@ -284,7 +284,9 @@ func (dc *TraditionalDnsConn) ReserveNewQuery() (_ ReservedExchanger, closed boo
 
 	dc.queueMu.Lock()
 	defer dc.queueMu.Unlock()
-	if len(dc.queue)+dc.reservedQuery >= dc.maxCq {
+	// A reservation is held until ExchangeReserved/WithdrawReserved returns, so
+	// queries waiting in dc.queue are already counted by reservedQuery.
+	if dc.reservedQuery >= dc.maxCq {
 		return nil, false
 	}
 	dc.reservedQuery++
